@@ -143,32 +143,210 @@ pub broadcast axiom fn axiom_str_to_string(s: &str, r: String) ensures #[trigger
 pub broadcast axiom fn axiom_str_ext(a: &str, b: &str) ensures #[trigger] a@ == #[trigger] b@ ==> a == b;
 // A2 (UTF-8): a one-byte string below 128 is that ASCII character
 pub broadcast axiom fn axiom_ascii_singleton(s: &str) ensures s.spec_bytes().len() == 1 && s.spec_bytes()[0] < 128 ==> (#[trigger] s@) == seq![s.spec_bytes()[0] as char];
+// the token after offset b is `(`: nothing but whitespace up to a `(` byte (a name directly followed by `(` is a function name)
+pub open spec fn la_open(bytes: Seq<u8>, b: int) -> bool { exists|j: int| b <= j < bytes.len() && all_ws(bytes, b, j) && #[trigger] bytes[j] == 40 }
 pub open spec fn is_bool_kw(s: &str) -> bool { s == "True" || s == "true" || s == "False" || s == "false" }
 pub open spec fn tok_class(bytes: Seq<u8>, t: Token) -> bool {
     match t {
         Token::EOF => true,
         Token::Delim(ty, Span(a, b)) => is_delim_b(bytes[a as int]) && ty == delim_of_byte(bytes[a as int]),
-        Token::Comma(_, Span(a, b)) => bytes[a as int] == 44,
-        Token::Semicolon(_, Span(a, b)) => bytes[a as int] == 59,
+        Token::Comma(_, Span(a, b)) => bytes[a as int] == 44 && b == a + 1,
+        Token::Semicolon(_, Span(a, b)) => bytes[a as int] == 59 && b == a + 1,
         Token::String(_, Span(a, b)) => bytes[a as int] == 34 || bytes[a as int] == 39,
         // a number: a digit, then the maximal run of digit / dot / exponent characters
         Token::Number(_, Span(a, b)) => is_digit_b(bytes[a as int]) && num_run(bytes, a as int, b as int) && !num_continues(bytes, b as int),
         // true / True / false / False as whole identifiers
         Token::Bool(v, Span(a, b)) => other_start(bytes[a as int]) && !word_is_op(bytes, a as int, a + char_at(bytes, a as int).len_utf8())
+            && a + char_at(bytes, a as int).len_utf8() <= b
             && all_param(bytes, a + char_at(bytes, a as int).len_utf8(), b as int) && (b >= bytes.len() || !is_param_b(bytes[b as int]))
             && (if v { bytes.subrange(a as int, b as int) == "True".spec_bytes() || bytes.subrange(a as int, b as int) == "true".spec_bytes() }
                 else { bytes.subrange(a as int, b as int) == "False".spec_bytes() || bytes.subrange(a as int, b as int) == "false".spec_bytes() }),
         // an operator: greedy symbolic run, or a whole word (up to whitespace / delimiter) that is a registered operator
         Token::Operator(_, Span(a, b)) => if is_sym_b(bytes[a as int]) { sym_run(bytes, a as int, b as int) && sym_stop(bytes, a as int, b as int) }
-            else { other_start(bytes[a as int]) && reg_opb(bytes.subrange(a as int, b as int))
+            else { other_start(bytes[a as int]) && reg_opb(bytes.subrange(a as int, b as int)) && a + char_at(bytes, a as int).len_utf8() <= b
                    && no_stop_inside(bytes, a + char_at(bytes, a as int).len_utf8(), b as int) && word_stop(bytes, b as int) },
         // a name: first character, then the maximal run of [0-9A-Za-z._]; not a word operator, not a boolean keyword; a function name iff the next token is `(`
-        Token::Reference(s, Span(a, b)) => name_class(bytes, s, a as int, b as int) && !tok_is(tk(bytes, b as int), "("@),
-        Token::Function(s, Span(a, b)) => name_class(bytes, s, a as int, b as int) && tok_is(tk(bytes, b as int), "("@),
+        Token::Reference(s, Span(a, b)) => name_class(bytes, s, a as int, b as int) && !la_open(bytes, b as int),
+        Token::Function(s, Span(a, b)) => name_class(bytes, s, a as int, b as int) && la_open(bytes, b as int),
     }
 }
 pub open spec fn name_class(bytes: Seq<u8>, s: &str, a: int, b: int) -> bool {
     &&& other_start(bytes[a]) &&& !word_is_op(bytes, a, a + char_at(bytes, a).len_utf8())
+    &&& a + char_at(bytes, a).len_utf8() <= b
     &&& all_param(bytes, a + char_at(bytes, a).len_utf8(), b) &&& (b >= bytes.len() || !is_param_b(bytes[b]))
     &&& !is_bool_kw(s)
+}
+
+// ======================= the scanner is a function (was assumption A7): tok_post and tok_class determine the token =======================
+// A8b: a &str is determined by its bytes; A8c: the UTF-8 encoding of one ASCII character is that byte
+pub broadcast axiom fn axiom_str_bytes_ext(a: &str, b: &str) ensures #[trigger] a.spec_bytes() == #[trigger] b.spec_bytes() ==> a == b;
+pub broadcast axiom fn axiom_ascii_char_bytes(s: &str) ensures s@.len() == 1 && (s@[0] as u32) < 128 ==> (#[trigger] s.spec_bytes()) == seq![s@[0] as u8];
+pub open spec fn tok_at(bytes: Seq<u8>, p: int, t: Token) -> bool { tok_post(bytes, p, t, tok_end(t, bytes.len() as int)) && tok_class(bytes, t) }
+// the token the tokenizer produces when scanning from offset p
+#[verifier::opaque]
+pub open spec fn tk<'a>(b: Seq<u8>, p: int) -> Token<'a> { choose|t: Token<'a>| tok_at(b, p, t) }
+pub open spec fn tok_kind(t: Token) -> int {
+    match t { Token::EOF => 0, Token::Operator(..) => 1, Token::Comma(..) => 2, Token::Semicolon(..) => 3, Token::Reference(..) => 4, Token::Function(..) => 5,
+              Token::Delim(..) => 6, Token::Number(..) => 7, Token::Bool(..) => 8, Token::String(..) => 9 }
+}
+pub proof fn lemma_first_byte(bytes: Seq<u8>, p: int, t: Token)
+    requires tok_at(bytes, p, t), !(t is EOF),
+    ensures ({ let a = tok_start(t, bytes.len() as int); let c = bytes[a];
+        &&& p <= a < tok_end(t, bytes.len() as int) <= bytes.len() && all_ws(bytes, p, a) && !is_ws_byte(c)
+        &&& (t is Delim <==> is_delim_b(c)) && (t is Comma <==> c == 44) && (t is Semicolon <==> c == 59) && (t is String <==> (c == 34 || c == 39)) && (t is Number <==> is_digit_b(c))
+        &&& (is_sym_b(c) ==> t is Operator) && (other_start(c) <==> !(t is Delim || t is Comma || t is Semicolon || t is String || t is Number) && !is_sym_b(c))
+    }),
+{ }
+pub proof fn lemma_start_unique(bytes: Seq<u8>, p: int, a1: int, a2: int)
+    requires p <= a1 < bytes.len(), p <= a2 < bytes.len(), all_ws(bytes, p, a1), all_ws(bytes, p, a2), !is_ws_byte(bytes[a1]), !is_ws_byte(bytes[a2]),
+    ensures a1 == a2,
+{
+    if a1 < a2 { assert(is_ws_byte(bytes[a1])); }
+    if a2 < a1 { assert(is_ws_byte(bytes[a2])); }
+}
+// positions of a greedy symbolic run form one chain: the step after x is x + len(char at x)
+pub proof fn lemma_sym_chain(bytes: Seq<u8>, a: int, x: int, y: int)
+    requires sym_run(bytes, a, x), sym_run(bytes, a, y), x < y,
+    ensures x + char_at(bytes, x).len_utf8() <= y,
+    decreases x + y - 2 * a,
+{
+    assert(x >= a + 1) by { if x <= a + 1 { } else { let p = choose|p: int| a + 1 <= p < x && x == p + (#[trigger] char_at(bytes, p)).len_utf8() && sym_run(bytes, a, p) && reg_opb(bytes.subrange(a, x)); } }
+    assert(y > a + 1);
+    let py = choose|p: int| a + 1 <= p < y && y == p + (#[trigger] char_at(bytes, p)).len_utf8() && sym_run(bytes, a, p) && reg_opb(bytes.subrange(a, y));
+    if x == py { }
+    else if x < py { lemma_sym_chain(bytes, a, x, py); }
+    else {
+        assert(x > a + 1);
+        let px = choose|p: int| a + 1 <= p < x && x == p + (#[trigger] char_at(bytes, p)).len_utf8() && sym_run(bytes, a, p) && reg_opb(bytes.subrange(a, x));
+        if px == py { }
+        else if px < py { lemma_sym_chain(bytes, a, px, py); }
+        else { lemma_sym_chain(bytes, a, py, px); }
+    }
+}
+pub proof fn lemma_sym_next(bytes: Seq<u8>, a: int, x: int, y: int)
+    requires sym_run(bytes, a, x), sym_run(bytes, a, y), x < y,
+    ensures reg_opb(bytes.subrange(a, x + char_at(bytes, x).len_utf8())),
+    decreases y - a,
+{
+    lemma_sym_chain(bytes, a, x, y);
+    assert(x >= a + 1) by { if x <= a + 1 { } else { let p = choose|p: int| a + 1 <= p < x && x == p + (#[trigger] char_at(bytes, p)).len_utf8() && sym_run(bytes, a, p) && reg_opb(bytes.subrange(a, x)); } }
+    let py = choose|p: int| a + 1 <= p < y && y == p + (#[trigger] char_at(bytes, p)).len_utf8() && sym_run(bytes, a, p) && reg_opb(bytes.subrange(a, y));
+    if x == py { }
+    else if x < py { lemma_sym_next(bytes, a, x, py); }
+    else { lemma_sym_chain(bytes, a, py, x); }
+}
+pub proof fn lemma_end_unique(bytes: Seq<u8>, p: int, t1: Token, t2: Token)
+    requires tok_at(bytes, p, t1), tok_at(bytes, p, t2), !(t1 is EOF), !(t2 is EOF),
+        tok_start(t1, bytes.len() as int) == tok_start(t2, bytes.len() as int),
+        tok_kind(t1) == tok_kind(t2) || (tok_kind(t1) != 1 && tok_kind(t2) != 1 && other_start(bytes[tok_start(t1, bytes.len() as int)])),
+    ensures tok_end(t1, bytes.len() as int) == tok_end(t2, bytes.len() as int),
+{
+    let n = bytes.len() as int;
+    let a = tok_start(t1, n); let b1 = tok_end(t1, n); let b2 = tok_end(t2, n);
+    lemma_first_byte(bytes, p, t1); lemma_first_byte(bytes, p, t2);
+    if t1 is String {
+        if b1 < b2 { assert(bytes[b1 - 1] != bytes[a]); }
+        if b2 < b1 { assert(bytes[b2 - 1] != bytes[a]); }
+    } else if t1 is Number {
+        if b1 < b2 { assert(num_continues(bytes, b1)); }
+        if b2 < b1 { assert(num_continues(bytes, b2)); }
+    } else if t1 is Operator {
+        if is_sym_b(bytes[a]) {
+            if b1 < b2 { lemma_sym_next(bytes, a, b1, b2); }
+            if b2 < b1 { lemma_sym_next(bytes, a, b2, b1); }
+        } else {
+            lemma_word_end_unique(bytes, a + char_at(bytes, a).len_utf8(), b1, b2);
+        }
+    } else if t1 is Delim || t1 is Comma || t1 is Semicolon {
+    } else {
+        // Bool / Reference / Function: the maximal run of name characters after the first character
+        let f = a + char_at(bytes, a).len_utf8();
+        if b1 < b2 { assert(is_param_b(bytes[b1])); }
+        if b2 < b1 { assert(is_param_b(bytes[b2])); }
+    }
+}
+pub proof fn lemma_bool_kw_distinct()
+    ensures "True".spec_bytes() != "False".spec_bytes(), "True".spec_bytes() != "false".spec_bytes(), "true".spec_bytes() != "False".spec_bytes(), "true".spec_bytes() != "false".spec_bytes(),
+{
+    broadcast use axiom_str_bytes_ext;
+    reveal_strlit("True"); reveal_strlit("true"); reveal_strlit("False"); reveal_strlit("false");
+    assert("True"@.len() == 4 && "true"@.len() == 4 && "False"@.len() == 5 && "false"@.len() == 5);
+}
+// the theorem: at most one token satisfies the scanner's postcondition and classification at a position
+pub proof fn lemma_tok_unique(bytes: Seq<u8>, p: int, t1: Token, t2: Token)
+    requires tok_at(bytes, p, t1), tok_at(bytes, p, t2),
+    ensures t1 == t2,   // @C10 scanner.deterministic
+{
+    broadcast use axiom_str_bytes_ext;
+    let n = bytes.len() as int;
+    if t1 is EOF || t2 is EOF {
+        if !(t1 is EOF) { lemma_first_byte(bytes, p, t1); assert(is_ws_byte(bytes[tok_start(t1, n)])); }
+        if !(t2 is EOF) { lemma_first_byte(bytes, p, t2); assert(is_ws_byte(bytes[tok_start(t2, n)])); }
+    } else {
+        lemma_first_byte(bytes, p, t1); lemma_first_byte(bytes, p, t2);
+        let a = tok_start(t1, n);
+        lemma_start_unique(bytes, p, a, tok_start(t2, n));
+        let c = bytes[a];
+        let f = a + char_at(bytes, a).len_utf8();
+        // a whole-word operator excludes the name kinds, and conversely
+        if other_start(c) && (t1 is Operator) != (t2 is Operator) {
+            let (o, w) = if t1 is Operator { (t1, t2) } else { (t2, t1) };
+            assert(word_is_op(bytes, a, f)) by { assert(reg_opb(bytes.subrange(a, tok_end(o, n)))); }
+            assert(false);
+        }
+        lemma_end_unique(bytes, p, t1, t2);
+        let b = tok_end(t1, n);
+        if other_start(c) && !(t1 is Operator) {
+            lemma_bool_kw_distinct();
+            // Bool against a name: the name would be a boolean keyword; Reference against Function: the same look-ahead
+            if t1 is Bool && !(t2 is Bool) { assert(false); }
+            if t2 is Bool && !(t1 is Bool) { assert(false); }
+        }
+        assert(tok_kind(t1) == tok_kind(t2));
+        assert(t1 == t2);
+    }
+}
+pub proof fn lemma_tk(bytes: Seq<u8>, p: int, t: Token)
+    requires tok_at(bytes, p, t),
+    ensures tk(bytes, p) == t,
+{
+    reveal(tk);
+    let u = choose|u: Token| tok_at(bytes, p, u);
+    lemma_tok_unique(bytes, p, t, u);
+}
+pub proof fn lemma_delim_strs()
+    ensures forall|d: DelimTokenType| #[trigger] delim_str(d) == "("@ <==> d == DelimTokenType::OpenParen,
+{
+    reveal_strlit("("); reveal_strlit(")"); reveal_strlit("["); reveal_strlit("]"); reveal_strlit("{"); reveal_strlit("}"); reveal_strlit("??");
+    assert forall|d: DelimTokenType| #[trigger] delim_str(d) == "("@ <==> d == DelimTokenType::OpenParen by {
+        if d != DelimTokenType::OpenParen { assert(delim_str(d)[0] != '(' || delim_str(d).len() != 1); }
+    }
+}
+// the look-ahead that separates a function name from a reference sees exactly the `(` token
+pub proof fn lemma_open_paren(bytes: Seq<u8>, p: int, t: Token)
+    requires tok_at(bytes, p, t),
+    ensures tok_is(t, "("@) == la_open(bytes, p),
+{
+    broadcast use axiom_str_ext, axiom_ascii_char_bytes;
+    let n = bytes.len() as int;
+    lemma_delim_strs();
+    reveal_strlit("(");
+    if t is EOF {
+        if la_open(bytes, p) { let j = choose|j: int| p <= j < bytes.len() && all_ws(bytes, p, j) && #[trigger] bytes[j] == 40; assert(is_ws_byte(bytes[j])); }
+    } else {
+        lemma_first_byte(bytes, p, t);
+        let a = tok_start(t, n);
+        if la_open(bytes, p) {
+            let j = choose|j: int| p <= j < bytes.len() && all_ws(bytes, p, j) && #[trigger] bytes[j] == 40;
+            lemma_start_unique(bytes, p, a, j);
+            assert(t is Delim);
+        }
+        if tok_is(t, "("@) {
+            match t {
+                Token::Delim(d, _) => { assert(bytes[a] == 40); assert(all_ws(bytes, p, a)); }
+                Token::Operator(op, _) => { assert(op == "("); assert(op.spec_bytes() == seq![40u8]); assert(bytes.subrange(a, tok_end(t, n))[0] == 40); assert(false); }
+                _ => {}
+            }
+        }
+    }
 }
